@@ -464,4 +464,45 @@ theorem goto_failed_keeps_position (c : ECfg S) (fuel : Nat) (spec : String) (l 
               obtain ⟨l', x⟩ := r
               exact this h
 
+theorem gotoBody_error_join (c : ECfg S) (recur : String → Live S.V → NRes S (Output S.V)) (pid : String) (l : Live S.V)
+    (e : Exc) (h : (gotoBody c recur pid l).2 = .error e) : (gotoBody c recur pid l).1.joinIdx = l.joinIdx := by
+  unfold gotoBody at h ⊢
+  rw [keepCurOnError_snd] at h
+  exact keepCurOnError_joinIdx_error l _ e h
+
+/-- **a navigation that fails part-way leaves the `@join` progress where it was**: what is displayed (the old output, a
+later section of the passage) and the section the next `-> @join` choice continues from stay in step (C10, C15) -/
+theorem goto_failed_keeps_join (c : ECfg S) (fuel : Nat) (spec : String) (l : Live S.V) (e : Exc)
+    (h : (goto c fuel spec l).2 = .error e) : (goto c fuel spec l).1.joinIdx = l.joinIdx := by
+  cases fuel with
+  | zero => rfl
+  | succ fuel =>
+    unfold goto at h ⊢
+    cases hps : parseSpec spec with
+    | error e' => simp only [hps]
+    | ok pa =>
+      obtain ⟨pid, args⟩ := pa
+      simp only [hps] at h ⊢
+      cases hpp : c.story.passage? pid with
+      | none => simp only [hpp]
+      | some p =>
+        simp only [hpp] at h ⊢
+        by_cases hc : (p.params.isEmpty && args == "") = true
+        · simp only [hc, if_true] at h ⊢
+          exact gotoBody_error_join c _ _ _ e h
+        · simp only [hc, Bool.false_eq_true, if_false] at h ⊢
+          cases hpd : parseDirectiveArgs S (evalCtx S c.cx l.vars l.scopes.head?) args with
+          | error e' => simp only [hpd]
+          | ok ad =>
+            simp only [hpd] at h ⊢
+            cases hb : bindArgs c l p.params ad 0 [] with
+            | error e' => simp only [hb]; split <;> rfl
+            | ok scope =>
+              simp only [hb] at h ⊢
+              unfold withScope at h ⊢
+              have := gotoBody_error_join c (goto c fuel) pid { l with scopes := scope :: l.scopes } e
+              generalize gotoBody c (goto c fuel) pid { l with scopes := scope :: l.scopes } = r at h this ⊢
+              obtain ⟨l', x⟩ := r
+              exact this h
+
 end Bardic
